@@ -371,6 +371,15 @@ func wGen(t *rapid.T, o wOpts) mgen.Model {
 					}
 				case kind < 17: // external
 					call = mgen.Call{Pkg: rapid.SampledFrom(wExtPkgs).Draw(t, "xpkg"), Node: "Ext", Func: "run"}
+					if moreKinds && rapid.IntRange(0, 3).Draw(t, "qualifiedReceiver") == 3 {
+						// eighth seed batch: a receiver written with its package inside that package (`com.foo.Bar.baz()` in
+						// com.foo) is recorded as Package com.foo, NodeName com.foo.Bar: the callee is com.foo.com.foo.Bar.baz,
+						// which is no declared method even where com.foo.Bar.baz is one
+						tc := rapid.SampledFrom(m.Classes).Draw(t, "qualifiedOf")
+						if tc.Pkg != "" && len(tc.Methods) > 0 {
+							call = mgen.Call{Pkg: tc.Pkg, Node: tc.Pkg + "." + tc.Name, Func: tc.Methods[rapid.IntRange(0, len(tc.Methods)-1).Draw(t, "qualifiedMethod")].Name}
+						}
+					}
 					if moreKinds && rapid.IntRange(0, 2).Draw(t, "noPkg") == 2 {
 						call = mgen.Call{Pkg: "", Node: "list", Func: "add"} // receiver the front end could not resolve
 					}
